@@ -207,6 +207,10 @@ ClassOf(op) ==
                "innerNo13", "innerNoSv", "nonZeroPad", "eoeOutOfOrder", "eoeRepeated", "eoeMissing", "eoeRefsEch", "eoeRefsEoe", "eoeTwice"} -> "illegal_parameter"
     [] op \in {"eoeOdd", "eoeBadLen", "svOdd", "sniTwoNames", "innerSvOdd"} -> "decode_error"
     [] OTHER -> "none"
+\* the draft mandates illegal_parameter for the ECH-specific rules; for merely malformed contents of an extension TLS allows
+\* decode_error or illegal_parameter, and the specification admits both
+Malformed == {"svOdd", "sniTwoNames", "innerSvOdd", "sniNameType", "innerSniNameType", "eoeOdd", "eoeBadLen"}
+ClassesOf(op) == IF op \in Malformed THEN {"decode_error", "illegal_parameter"} ELSE {ClassOf(op)}
 Faults == {op \in Ops : ClassOf(op) # "none"}
 
 \* --------------------------------------------------------------- the case and the procedure
@@ -324,7 +328,7 @@ Req_C02_Tamper == /\ (Done /\ op \in Tampers \ {"wrongInfo"} => res.kind # "acce
 Req_C03 == Done /\ res.kind = "accept" /\ op = "none" =>
               /\ res.inner = Committed
               /\ res.sni = ValOf(Committed, "sni") /\ res.alpn = ValOf(Committed, "alpn")
-Req_C04 == Done /\ op \in Faults /\ Holds => res.kind = "abort" /\ res.class = ClassOf(op)
+Req_C04 == Done /\ op \in Faults /\ Holds => res.kind = "abort" /\ res.class \in ClassesOf(op)
 Req_C04_NeverAccept == Done /\ op \in Faults => res.kind # "accept"
 Req_C05 == Done /\ op \in PassOps => res.kind = "pass" /\ res.sni = Sni(hello) /\ res.alpn = Alpn(hello)
 Req_C09 == Done /\ op = "none" => (res.kind = "accept" <=> Holds) /\ (~Holds => res.kind = "pass")
